@@ -150,7 +150,11 @@ pub fn gen_wallet(property: &str, seed: u64, thorough: bool) -> Scenario {
   ops.push(Op::Mine((0..n0).map(|_| block(vec![], script())).collect()));
 
   // inscriptions on wallet outputs
-  let n_insc = if property == "C24" { 4 + wrng.usize(3) } else { 1 + wrng.usize(3) };
+  let n_insc = match property {
+    "C24" => 4 + wrng.usize(3),
+    "C21" => 2 + wrng.usize(3),
+    _ => 1 + wrng.usize(3),
+  };
   let mut txs = Vec::new();
   for _ in 0..n_insc {
     txs.push(TxSpec {
@@ -273,6 +277,27 @@ pub fn gen_wallet(property: &str, seed: u64, thorough: bool) -> Scenario {
       outputs: vec![change_out(script())],
       fee_permille: 0,
       fee_exact: Some(0),
+      runestone: None,
+      runestone_at: 0,
+      runestone_value: 0,
+    });
+  }
+  if property == "C21" && wrng.chance(1, 2) {
+    // an output holding inscriptions on two different sats
+    txs.push(TxSpec {
+      inputs: vec![
+        InSpec {
+          sel: InputSel::Inscribed(0),
+          witness: WitnessSpec::None,
+        },
+        InSpec {
+          sel: InputSel::Inscribed(1),
+          witness: WitnessSpec::None,
+        },
+      ],
+      outputs: vec![wallet_out(script(), 20_000), change_out(script())],
+      fee_permille: 0,
+      fee_exact: Some(600),
       runestone: None,
       runestone_at: 0,
       runestone_value: 0,
@@ -963,10 +988,15 @@ fn resolve(cmd: &WalletCmd, ex: &Exec, m: &Model, wv: &WalletView) -> Option<Res
         let ids = inscriptions_on(m, o);
         if ids.is_empty() {
           cardinals.push(*o);
-        } else if let Some(sat) = m.inscr.list.iter().find(|i| i.id == ids[0]).and_then(|i| i.sat)
-          && let Some(offset) = crate::model::offset_of(&u.ranges, sat)
-        {
-          inscribed.push((*o, offset, sat));
+        }
+        // every inscribed sat of the output is a possible reinscription target
+        for id in &ids {
+          if let Some(sat) = m.inscr.list.iter().find(|i| i.id == *id).and_then(|i| i.sat)
+            && let Some(offset) = crate::model::offset_of(&u.ranges, sat)
+            && !inscribed.contains(&(*o, offset, sat))
+          {
+            inscribed.push((*o, offset, sat));
+          }
         }
       }
       let mut yaml = format!("mode: {mode_name}\n");
@@ -1145,6 +1175,7 @@ fn settle_batch(
   parents: &[ord::InscriptionId],
   count: usize,
   subject: Option<OutPoint>,
+  target_sat: Option<u64>,
   out: &mut Vec<Violation>,
 ) {
   let Ok(j) = serde_json::from_str::<serde_json::Value>(&p.stdout) else {
@@ -1230,8 +1261,28 @@ fn settle_batch(
     && let Some(tx) = p.txs.iter().find(|t| t.compute_txid() == commit)
   {
     for i in &tx.input {
-      // a reinscription is about the inscribed output named by `satpoint`
+      // a reinscription is about the inscribed output named by `satpoint`:
+      // what sits on the targeted sat is its subject, anything on other sats
+      // of that output is not
       if Some(i.previous_output) == subject {
+        let elsewhere: Vec<ord::InscriptionId> = p
+          .before
+          .inscr
+          .list
+          .iter()
+          .filter(|x| inscriptions_on(&p.before, &i.previous_output).contains(&x.id) && x.sat != target_sat)
+          .map(|x| x.id)
+          .collect();
+        if !elsewhere.is_empty() {
+          out.push(v(
+            "C21",
+            "commit_spends_non_cardinal",
+            format!(
+              "{}: commit {commit} spends {} to reinscribe sat {target_sat:?}, but the output also holds {elsewhere:?} on other sats",
+              p.describe, i.previous_output
+            ),
+          ));
+        }
         continue;
       }
       let (runes, inscribed) = holdings(&p.before, &i.previous_output);
@@ -1578,7 +1629,7 @@ pub fn run_wallet(property: &str, sc: &Scenario) -> RunReport {
             } = &p.expect
           {
             ctx.report.checks += 1;
-            settle_batch(&ex, &after, &p, parents, *count, *subject, &mut out);
+            settle_batch(&ex, &after, &p, parents, *count, *subject, *target_sat, &mut out);
             settle_batch_extras(&ex, &after, &p, etching.as_ref(), *target_sat, &mut out, &mut ctx.report.facts);
             continue;
           }
